@@ -909,7 +909,7 @@ protected:
 		volatile long double truncated = static_cast<long double>(double(rhs));
 		volatile double remainder = static_cast<double>(rhs - truncated);
 		x[0] = static_cast<double>(truncated);
-		x[1] = remainder;
+		x[1] = std::isfinite(x[0]) ? remainder : 0.0;  // an infinite (or overflowed) head has no remainder: inf - inf is NaN, finite - inf is -inf
 		x[2] = 0.0;
 		x[3] = 0.0;
 		return *this;
